@@ -18,6 +18,7 @@ ASSUMPTIONS = ["within |1/Lambda - 1| < 1e-6 of the exactly-fitting configuratio
                "centre is a square root of a cancelling difference: tolerance 2e-4*size instead of 1e-7*size (the library derives its angles with acos, accurate to sqrt(eps) ~ 1.5e-8 near 0/180 deg), either "
                "large_arc reading accepted",
                "coordinates at scales 1e-3..1e6 (the property's 'admissible' parameters); start != end; non-zero radii"]
+RULE += ' Also: A quarter of the arcs are obtained by reversed() from the mirror-image description.'   # added after the seeded-change rounds (DESIGN.md section 10)
 CONFIGS = ['scipy']
 BUDGET = {'quick': 40000, 'thorough': 600000}
 REQUIRED = ['arc_obtained_from_reversed', 'radius_enlarged', 'radius_kept', 'neg_radius', 'flags:00', 'flags:01', 'flags:10', 'flags:11', 'rot_outside_0_360']
